@@ -62,7 +62,7 @@ pub fn arb_op_opts(na: u8, nf: u8, iw: bool, long: bool, remine: bool) -> impl S
         // last, so that shrinking (which moves towards earlier alternatives) never introduces it when its weight is 0
         if remine { 2 } else { 0 } => proptest::collection::vec(any::<u32>(), 1..4).prop_map(|sels| Op::ReMine { sels }),
         // shallow only: a truncation far below the tip runs into the known finding `chain-state-truncation-checkpoint-pruned-at-once` (C06)
-        if remine { 2 } else { 0 } => (0u8..10, any::<bool>()).prop_map(|(depth, reorg)| Op::TruncateToChainState { depth, reorg }),
+        if remine { 1 } else { 0 } => (0u8..10, any::<bool>()).prop_map(|(depth, reorg)| Op::TruncateToChainState { depth, reorg }),
     ]
 }
 
@@ -181,6 +181,8 @@ pub struct Flags {
     pub remined_txs: u32,
     pub chain_state_truncations: u32,
     pub chain_state_truncations_below_request: u32,
+    /// some `truncate_to_chain_state` succeeded while scanned blocks lay above its target (so it rewrote the trees)
+    pub chain_state_truncation_cut_trees: bool,
 }
 
 /// maximal unscanned ranges [start, end] on the current branch
@@ -520,7 +522,17 @@ impl Hist {
                 match tr {
                     Ok(got) => {
                         vensure!(got <= h, "truncate-above-request", "{step}: truncate_to_height({h}) returned {got}");
+                        // Known finding (C06, `chain-state-truncation-keeps-checkpoints`): once an earlier
+                        // truncate_to_chain_state has left a checkpoint above every scanned block, a later truncation
+                        // below it skips the trees as well (no scanned block is removed).
+                        let stale_cp = if self.flags.chain_state_truncations > 0 { self.w.max_checkpoint_height().filter(|m| *m > got) } else { None };
                         self.after_truncate(got, *reorg);
+                        if let (Some(m), true) = (stale_cp, *reorg) {
+                            return Err(Fail::new(
+                                SIG_STALE_CHECKPOINT,
+                                format!("{step}: truncate_to_height({h}) returned {got} after an earlier truncate_to_chain_state, but the note commitment trees still hold a checkpoint at height {m}"),
+                            ));
+                        }
                     }
                     Err(_) => {
                         // documented refusals (RequestedRewindInvalid etc.): a no-op for the model
@@ -539,6 +551,9 @@ impl Hist {
                             self.frontier_sizes.push(self.chain.sizes_at(h));
                         }
                         self.flags.chain_state_truncations += 1;
+                        if trees_cut {
+                            self.flags.chain_state_truncation_cut_trees = true;
+                        }
                         // The call reports no achieved height. When no retained checkpoint at or below `h` belongs to
                         // a scanned block (sparse checkpoints: long runs of blocks without commitments) the wallet first
                         // drops back to its oldest checkpoint, i.e. below `h`; like a client, the model learns the
